@@ -68,10 +68,24 @@ balances_flush!(c10_balances_f0, 0);
 // first-appearance order, which is what the model iterates in - on the real HashMap any order is fine).
 //@ id=C08 tier=extra name=c08_aggregate timeout=5400 role=aggregate bound=3-entries,addresses-from-{a,b},values<=3,real-formatting mem=20 fn=Balances::on_complete
 #[kani::proof]
-#[kani::unwind(24)]
-fn c08_aggregate() {
+#[kani::unwind(30)]
+fn c08_aggregate() { aggregate_body(false, None) }
+//@ id=C08 tier=extra name=c08_aggregate_m timeout=5400 role=aggregate bound=3-entries,addresses-from-{a,b},values<=3,structured-format-model mem=20 fn=Balances::on_complete
+#[kani::proof]
+#[kani::unwind(30)]
+fn c08_aggregate_m() { aggregate_body(true, None) }
+//@ id=C08 tier=quick name=c08_aggregate_aba timeout=900 role=aggregate bound=3-entries,addresses-a,b,a(concrete),values<=3-symbolic,structured-format-model mem=20 fn=Balances::on_complete
+#[kani::proof]
+#[kani::unwind(30)]
+fn c08_aggregate_aba() { aggregate_body(true, Some([true, false, true])) }
+//@ id=C08 tier=quick name=c08_aggregate_aaa timeout=900 role=aggregate bound=3-entries,all-one-address,values<=3-symbolic,structured-format-model mem=20
+#[kani::proof]
+#[kani::unwind(30)]
+fn c08_aggregate_aaa() { aggregate_body(true, Some([true, true, true])) }
+fn aggregate_body(structured: bool, pattern: Option<[bool; 3]>) {
+    unsafe { fmtm::STRUCTURED.v = structured; if structured { fmtm::MAX_DIGITS.v = 1; } }
     unsafe { gfs::LOG_CONTENT.v = true; }
-    let which: [bool; 3] = kani::any(); // true = "a", false = "b"
+    let which: [bool; 3] = match pattern { Some(p) => p, None => kani::any() }; // true = "a", false = "b"
     let v: [u64; 3] = kani::any();
     kani::assume(v[0] <= 3 && v[1] <= 3 && v[2] <= 3);
     let mut cb = mk_dump(64);
@@ -113,8 +127,8 @@ fn c08_aggregate() {
         while i < n { assert!(gfs::WLOG.v[3][i] == want[i], "C08:balance_is_the_exact_sum_of_the_address_outputs"); i += 1; }
         assert!(gfs::RENAMES.v == 1, "C08:file_gets_final_name");
     }
-    kani::cover!(has_a && has_b && sum_a == 6, "two addresses, one with two outputs summing to 6");
-    kani::cover!(!has_b && sum_a == 9, "one address owning all three outputs");
+    kani::cover!(!(has_a && has_b) || sum_a == 6 || (pattern.is_some() && !(which[0] && which[2])), "two addresses, one with two outputs summing to 6");
+    kani::cover!(has_b || sum_a == 9, "one address owning all three outputs");
     kani::cover!(has_a && sum_a == 0, "zero balance address is still listed once");
     core::mem::forget(cb);
 }
@@ -123,7 +137,13 @@ fn c08_aggregate() {
 //@ id=C02,C08 tier=extra name=c02_balances_name timeout=5400 role=names bound=Balances,start-12,last-345 mem=20 fn=Balances::on_start,Balances::on_complete
 #[kani::proof]
 #[kani::unwind(40)]
-fn c02_balances_name() {
+fn c02_balances_name() { balances_name_body(false) }
+//@ id=C02,C08 tier=quick name=c02_balances_name_m timeout=900 role=names bound=Balances,start-12,last-345,structured-format-model mem=20 fn=Balances::on_start,Balances::on_complete
+#[kani::proof]
+#[kani::unwind(40)]
+fn c02_balances_name_m() { balances_name_body(true) }
+fn balances_name_body(structured: bool) {
+    unsafe { fmtm::STRUCTURED.v = structured; if structured { fmtm::MAX_DIGITS.v = 3; } }
     unsafe { gfs::LOG_NAMES.v = true; }
     let mut cb = mk_dump(64);
     match cb.on_start(12) { Ok(()) => {}, Err(e) => { core::mem::forget(e); } }
